@@ -216,6 +216,22 @@ var c05Kinds = []c05Kind{
 	{"batch-rename", []int{ref.PModifyUser}, func(x c05Ctx) ref.Tx {
 		return ref.Tx{Type: ref.TUpdateUser, Fields: []ref.Fld{ref.F(ref.FData, subFields(ref.F(ref.FData, obf("vic")), ref.F(ref.FUserLogin, obf("vic2")), ref.FS(ref.FUserName, "Victim"), ref.F(ref.FUserPassword, []byte{0}), ref.F(ref.FUserAccess, make([]byte, 8))))}}
 	}, ""},
+	// one request, two entries governed by different privileges: refused as a whole or carried out as a whole
+	{"batch-create-then-delete", []int{ref.PCreateUser, ref.PDeleteUser}, func(x c05Ctx) ref.Tx {
+		return ref.Tx{Type: ref.TUpdateUser, Fields: []ref.Fld{
+			ref.F(ref.FData, subFields(ref.F(ref.FUserLogin, obf("nu")), ref.FS(ref.FUserName, "N"), ref.F(ref.FUserPassword, obf("p")), ref.F(ref.FUserAccess, make([]byte, 8)))),
+			ref.F(ref.FData, subFields(ref.F(ref.FData, obf("vic"))))}}
+	}, ""},
+	{"batch-delete-then-create", []int{ref.PCreateUser, ref.PDeleteUser}, func(x c05Ctx) ref.Tx {
+		return ref.Tx{Type: ref.TUpdateUser, Fields: []ref.Fld{
+			ref.F(ref.FData, subFields(ref.F(ref.FData, obf("vic")))),
+			ref.F(ref.FData, subFields(ref.F(ref.FUserLogin, obf("nu")), ref.FS(ref.FUserName, "N"), ref.F(ref.FUserPassword, obf("p")), ref.F(ref.FUserAccess, make([]byte, 8))))}}
+	}, ""},
+	{"batch-modify-then-delete", []int{ref.PModifyUser, ref.PDeleteUser}, func(x c05Ctx) ref.Tx {
+		return ref.Tx{Type: ref.TUpdateUser, Fields: []ref.Fld{
+			ref.F(ref.FData, subFields(ref.F(ref.FUserLogin, obf("vic")), ref.FS(ref.FUserName, "Changed"), ref.F(ref.FUserPassword, []byte{0}), ref.F(ref.FUserAccess, make([]byte, 8)))),
+			ref.F(ref.FData, subFields(ref.F(ref.FData, obf("obs"))))}}
+	}, ""},
 	{"batch-delete", []int{ref.PDeleteUser}, func(x c05Ctx) ref.Tx {
 		return ref.Tx{Type: ref.TUpdateUser, Fields: []ref.Fld{ref.F(ref.FData, subFields(ref.F(ref.FData, obf("vic"))))}}
 	}, ""},
